@@ -1106,5 +1106,5 @@ func TestEnumerated(t *testing.T) {
 }
 
 func TestReplay(t *testing.T) {
-	kit.Replay(t, propStack, propEnum, propWire, propChain, propChainWire, propFraming, propFramingEnum, propMITM, propViaHist, propConnectRefused)
+	kit.Replay(t, propStack, propEnum, propWire, propChain, propChainWire, propFraming, propFramingEnum, propMITM, propViaHist, propConnectRefused, propConnectLoop)
 }
